@@ -9,6 +9,7 @@ value spec (JSON-able):
                                      k-th value (the last one repeats)
     ["probef", id]                   logging callable f(*args) -> args[0]
     ["obj", {attr: spec}]            plain object with attributes
+    ["fobj", {attr: spec}]           the same, but falsy (len() == 0)
     ["map", {key: spec}]             dict
     ["seq", kind, [spec...]]         kind: list | tuple | iter | gen | lazy
     ["pair", spec, spec]             2-tuple
@@ -72,6 +73,14 @@ class Obj:
             if not kv[0].startswith('_'))
 
     __str__ = __repr__
+
+
+class FalsyObj(Obj):
+    """attribute bag whose truth value is False (an empty container that
+    still carries attributes)"""
+
+    def __len__(self):
+        return 0
 
 
 class LazySeq:
@@ -175,6 +184,8 @@ class World:
             return raiser
         if k == 'obj':
             return Obj({a: self.build(v) for a, v in spec[1].items()})
+        if k == 'fobj':
+            return FalsyObj({a: self.build(v) for a, v in spec[1].items()})
         if k == 'map':
             return {a: self.build(v) for a, v in spec[1].items()}
         if k == 'pair':
